@@ -6,7 +6,7 @@ import ast
 import copy
 from typing import Dict, List, Optional
 
-from .model import EnumMember, norm
+from .model import UNKNOWN, EnumMember, norm
 from .normalize import (MAX_DUP_NODES, MUTATORS, NotInlinable, Subst, all_names, const_truth, count_nodes, has_node, is_atom, is_pure, name_loads,
                         returns_only, stored_names, strip_doc, terminates, walk_no_nested, walk_stmts)
 
@@ -17,6 +17,8 @@ def run(nz, body, fi):
     body = lower_match(nz, body, fi)
     body = hoist_walrus(nz, body, fi)
     touched = fi.qname in nz.log
+    body = callable_aliases(nz, body, fi)
+    body = map_blocks(body, lambda b: setdefault_holder(nz, b, fi))
     body = Fold(nz).block(body)
     body = lower_dispatch(nz, body, fi)
     body = unroll(nz, body, fi)
@@ -30,6 +32,112 @@ def run(nz, body, fi):
         body = tidy(body)
     body = drop_dead_closures(nz, body)
     return body or [ast.Pass()]
+
+
+def callable_aliases(nz, body, fi):
+    """a local bound once to a callable object built on the spot -- methodcaller("m", ...), functools.partial(g, ...), attrgetter / itemgetter, a lambda --
+    and used only by calling it or by handing it to map / filter / starmap: the uses are rewritten with the expression itself, which the
+    functional-idiom lowering then turns into the plain call.  Only when nothing the expression reads is re-bound in the function."""
+    f = Fold(nz)
+    changed = True
+    rounds = 0
+    while changed and rounds < 6:
+        changed = False
+        rounds += 1
+        for st in list(walk_stmts(body, nested=False)):
+            if not (isinstance(st, ast.Assign) and len(st.targets) == 1 and isinstance(st.targets[0], ast.Name)):
+                continue
+            v, e = st.targets[0].id, st.value
+            kind = None
+            if isinstance(e, ast.Lambda):
+                kind = "lambda"
+            elif isinstance(e, ast.Call):
+                kind = f._ext(e.func)
+            if kind not in ("lambda", "operator.methodcaller", "functools.partial", "operator.attrgetter", "operator.itemgetter"):
+                continue
+            if single_assignment(body, v) is not st:
+                continue
+            reads = {x.id for x in ast.walk(e) if isinstance(x, ast.Name) and isinstance(x.ctx, ast.Load)}
+            bound = {a.arg for a in ast.walk(e) if isinstance(a, ast.arg)}
+            if any(store_count(body, r, fi.params) > 1 for r in reads - bound):
+                continue
+            # every use: callee position, or function argument of map / filter / starmap
+            uses = [x for x in walk_stmts(body, nested=False) if isinstance(x, ast.Name) and x.id == v and isinstance(x.ctx, ast.Load)]
+            ok_uses = set()
+            for c in walk_stmts(body, nested=False):
+                if isinstance(c, ast.Call):
+                    if isinstance(c.func, ast.Name) and c.func.id == v:
+                        ok_uses.add(id(c.func))
+                    elif f._ext(c.func) in ("map", "filter", "itertools.starmap", "itertools.filterfalse") and c.args and isinstance(c.args[0], ast.Name) and c.args[0].id == v:
+                        ok_uses.add(id(c.args[0]))
+            if not uses or any(id(u) not in ok_uses for u in uses):
+                continue
+            # nested functions must not capture it
+            if any(isinstance(x, ast.Name) and x.id == v for d in walk_stmts(body, nested=False) if isinstance(d, (ast.FunctionDef, ast.Lambda)) and d is not e
+                   for x in ast.walk(d) if x is not d):
+                continue
+
+            class Put(ast.NodeTransformer):
+                def visit_Name(self, n):
+                    if n.id == v and isinstance(n.ctx, ast.Load) and id(n) in ok_uses:
+                        return ast.copy_location(copy.deepcopy(e), n)
+                    return n
+            new_body = []
+            for s_ in body:
+                new_body.append(Put().visit(s_))
+            body = drop_stmt(new_body, st)
+            nz._local_touched = True
+            nz.log.setdefault(fi.qname, []).append(f"callable alias `{v}` = {norm(e)[:60]} written out at its uses")
+            changed = True
+            break
+    return body
+
+
+def setdefault_holder(nz, stmts, fi):
+    """j = {}; b = j.setdefault(K, [])   is   b = []; j = {K: b}   (the dict was empty, so setdefault stores and returns the new list)"""
+    out = []
+    i = 0
+    while i < len(stmts):
+        a = stmts[i]
+        b = stmts[i + 1] if i + 1 < len(stmts) else None
+        if isinstance(a, ast.Assign) and len(a.targets) == 1 and isinstance(a.targets[0], ast.Name) \
+                and ((isinstance(a.value, ast.Dict) and not a.value.keys) or (isinstance(a.value, ast.Call) and isinstance(a.value.func, ast.Name) and a.value.func.id == "dict"
+                                                                             and not a.value.args and not a.value.keywords)) \
+                and isinstance(b, ast.Assign) and len(b.targets) == 1 and isinstance(b.targets[0], ast.Name) and isinstance(b.value, ast.Call) \
+                and isinstance(b.value.func, ast.Attribute) and b.value.func.attr == "setdefault" and isinstance(b.value.func.value, ast.Name) \
+                and b.value.func.value.id == a.targets[0].id and len(b.value.args) == 2 and not b.value.keywords and is_pure(b.value.args[0]) \
+                and ((isinstance(b.value.args[1], ast.List) and not b.value.args[1].elts) or (isinstance(b.value.args[1], ast.Call) and isinstance(b.value.args[1].func, ast.Name)
+                                                                                             and b.value.args[1].func.id == "list" and not b.value.args[1].args)) \
+                and b.targets[0].id != a.targets[0].id and not any(isinstance(x, ast.Name) and x.id in (a.targets[0].id, b.targets[0].id) for x in ast.walk(b.value.args[0])):
+            n1 = ast.copy_location(ast.Assign(targets=[ast.Name(id=b.targets[0].id, ctx=ast.Store())], value=ast.List(elts=[], ctx=ast.Load())), a)
+            n2 = ast.copy_location(ast.Assign(targets=[ast.Name(id=a.targets[0].id, ctx=ast.Store())],
+                                              value=ast.Dict(keys=[b.value.args[0]], values=[ast.Name(id=b.targets[0].id, ctx=ast.Load())])), b)
+            for x in (n1, n2):
+                ast.fix_missing_locations(x)
+            out += [n1, n2]
+            nz._local_touched = True
+            nz.log.setdefault(fi.qname, []).append(f"`{a.targets[0].id} = {{}}; {b.targets[0].id} = {a.targets[0].id}.setdefault(k, [])` written as a dict literal holding the list")
+            i += 2
+            continue
+        out.append(a)
+        i += 1
+    return out
+
+
+def drop_stmt(stmts, victim):
+    out = []
+    for s in stmts:
+        if s is victim:
+            continue
+        for fld in ("body", "orelse", "finalbody"):
+            b = getattr(s, fld, None)
+            if isinstance(b, list) and b and isinstance(b[0], ast.stmt):
+                setattr(s, fld, drop_stmt(b, victim) or ([ast.Pass()] if fld == "body" else []))
+        if isinstance(s, ast.Try):
+            for h in s.handlers:
+                h.body = drop_stmt(h.body, victim) or [ast.Pass()]
+        out.append(s)
+    return out
 
 
 def mark_inl(stmts):
@@ -336,7 +444,22 @@ class Fold(ast.NodeTransformer):
         if isinstance(f, ast.Call) and not f.keywords and f.args and all(isinstance(a, ast.Constant) for a in f.args) and self._ext(f.func) == "operator.itemgetter":
             parts = [ast.Subscript(value=copy.deepcopy(arg), slice=a, ctx=ast.Load()) for a in f.args]
             return parts[0] if len(parts) == 1 else ast.Tuple(elts=parts, ctx=ast.Load())
+        if isinstance(f, ast.Call) and self._ext(f.func) == "operator.methodcaller" and f.args and isinstance(f.args[0], ast.Constant) and isinstance(f.args[0].value, str) \
+                and f.args[0].value.isidentifier() and not any(isinstance(a, ast.Starred) for a in f.args) and not any(k.arg is None for k in f.keywords):
+            # methodcaller("m", a, k=v)(x) is x.m(a, k=v)
+            return ast.Call(func=ast.Attribute(value=copy.deepcopy(arg), attr=f.args[0].value, ctx=ast.Load()), args=[copy.deepcopy(a) for a in f.args[1:]],
+                            keywords=[copy.deepcopy(k) for k in f.keywords])
+        if isinstance(f, ast.Call) and self._ext(f.func) == "functools.partial" and f.args and is_atom(f.args[0]) and not any(isinstance(a, ast.Starred) for a in f.args) \
+                and not any(k.arg is None for k in f.keywords):
+            # partial(g, a, k=v)(x) is g(a, x, k=v)
+            return ast.Call(func=copy.deepcopy(f.args[0]), args=[copy.deepcopy(a) for a in f.args[1:]] + [arg], keywords=[copy.deepcopy(k) for k in f.keywords])
         if isinstance(f, ast.Lambda):
+            a = f.args
+            if not (a.vararg or a.kwarg or a.kwonlyargs or a.defaults or a.posonlyargs) and len(a.args) == 1 and is_atom(arg):
+                try:
+                    return Subst({}, {a.args[0].arg: arg}).visit(copy.deepcopy(f.body))
+                except NotInlinable:
+                    return None
             return None
         if is_atom(f):
             return ast.Call(func=copy.deepcopy(f), args=[arg], keywords=[])
@@ -414,6 +537,27 @@ class Fold(ast.NodeTransformer):
             if all(isinstance(x, (ast.Tuple, ast.List)) and not any(isinstance(e, ast.Starred) for e in x.elts) for x in lits) \
                     and len({len(x.elts) for x in lits}) == 1 and all(is_pure(e) for x in lits for e in x.elts) and len(lits[0].elts) <= MAX_UNROLL:
                 return ast.Tuple(elts=[ast.Tuple(elts=[copy.deepcopy(x.elts[i]) for x in lits], ctx=ast.Load()) for i in range(len(lits[0].elts))], ctx=ast.Load())
+        if isinstance(n.func, ast.Call) and len(n.args) == 1 and not n.keywords and not isinstance(n.args[0], ast.Starred) \
+                and self._ext(n.func.func) in ("operator.methodcaller", "functools.partial"):
+            r = self._apply(n.func, n.args[0])
+            if r is not None:
+                return r
+        if isinstance(n.func, ast.Name) and n.func.id == "zip" and "zip" not in self.nz.used_locals and not n.keywords and len(n.args) >= 2 \
+                and isinstance(n.args[0], ast.Name) and all(isinstance(g, ast.GeneratorExp) and len(g.generators) == 1 and not g.generators[0].ifs
+                                                           and not g.generators[0].is_async and isinstance(g.generators[0].target, ast.Name)
+                                                           and isinstance(g.generators[0].iter, ast.Name) and g.generators[0].iter.id == n.args[0].id
+                                                           for g in n.args[1:]):
+            # zip(A, (f(x) for x in A), ...) pairs every element of A with what the generators make of that very element
+            v = self._fresh("x")
+            elts = [ast.Name(id=v, ctx=ast.Load())]
+            try:
+                for g in n.args[1:]:
+                    elts.append(Subst({}, {g.generators[0].target.id: ast.Name(id=v, ctx=ast.Load())}).visit(copy.deepcopy(g.elt)))
+            except NotInlinable:
+                elts = None
+            if elts is not None:
+                return ast.GeneratorExp(elt=ast.Tuple(elts=elts, ctx=ast.Load()),
+                                        generators=[ast.comprehension(target=ast.Name(id=v, ctx=ast.Store()), iter=n.args[0], ifs=[], is_async=0)])
         name = self._ext(n.func)
         if name is None or n.keywords:
             return None
@@ -423,6 +567,18 @@ class Fold(ast.NodeTransformer):
             body = self._apply(A[0], ast.Name(id=v, ctx=ast.Load()))
             if body is not None:
                 return ast.GeneratorExp(elt=body, generators=[ast.comprehension(target=ast.Name(id=v, ctx=ast.Store()), iter=A[1], ifs=[], is_async=0)])
+        if name == "itertools.starmap" and len(A) == 2 and is_atom(A[0]):
+            # starmap(f, zip(P, Q)) -> (f(x, y) for (x, y) in zip(P, Q));  starmap(f, it) -> (f(*t) for t in it)
+            it = A[1]
+            if isinstance(it, ast.Call) and isinstance(it.func, ast.Name) and it.func.id == "zip" and not it.keywords and 1 <= len(it.args) <= 4 \
+                    and not any(isinstance(a, ast.Starred) for a in it.args):
+                vs = [self._fresh("x") for _ in it.args]
+                call = ast.Call(func=copy.deepcopy(A[0]), args=[ast.Name(id=v, ctx=ast.Load()) for v in vs], keywords=[])
+                tgt = ast.Tuple(elts=[ast.Name(id=v, ctx=ast.Store()) for v in vs], ctx=ast.Store())
+                return ast.GeneratorExp(elt=call, generators=[ast.comprehension(target=tgt, iter=it, ifs=[], is_async=0)])
+            v = self._fresh("t")
+            call = ast.Call(func=copy.deepcopy(A[0]), args=[ast.Starred(value=ast.Name(id=v, ctx=ast.Load()), ctx=ast.Load())], keywords=[])
+            return ast.GeneratorExp(elt=call, generators=[ast.comprehension(target=ast.Name(id=v, ctx=ast.Store()), iter=it, ifs=[], is_async=0)])
         if name in ("filter", "itertools.filterfalse") and len(A) == 2:
             v = self._fresh("x")
             ref = ast.Name(id=v, ctx=ast.Load())
@@ -450,7 +606,7 @@ class Fold(ast.NodeTransformer):
         # getter objects called directly: attrgetter("a")(x)
         if isinstance(n.func, ast.Call) and len(A) == 1:
             r = self._apply(n.func, A[0])
-            if r is not None and not isinstance(r, ast.Call):
+            if r is not None and (not isinstance(r, ast.Call) or self._ext(n.func.func) in ("operator.methodcaller", "functools.partial")):
                 return r
         return None
 
@@ -626,6 +782,30 @@ class Fold(ast.NodeTransformer):
                 ast.fix_missing_locations(wrapped)
                 n.body = [wrapped]
             self.nz._local_touched = True
+        elif isinstance(it, (ast.GeneratorExp, ast.ListComp)) and len(it.generators) == 1 and isinstance(it.generators[0].target, ast.Name) \
+                and isinstance(n.target, ast.Name) and not n.orelse and not it.generators[0].is_async \
+                and not any(isinstance(x, (ast.Break, ast.Continue)) for b in n.body for x in ast.walk(b)) \
+                and it.generators[0].target.id != n.target.id and (isinstance(it, ast.GeneratorExp) or is_pure(it.elt)):
+            # for v in (E(x) for x in XS if c):  ==  for x in XS: if c: v = E(x); ...   (the generator is consumed one element per round,
+            # so element and body alternate exactly as before; a list comprehension only when its element has no effect)
+            g = it.generators[0]
+            # the generator's variable lives in the generator's own scope: it becomes a fresh local here
+            nv = g.target.id if g.target.id.startswith(("x__", "y__", "t__")) else self._fresh(g.target.id)
+            try:
+                elt = Subst({g.target.id: nv}, {}).visit(copy.deepcopy(it.elt))
+                ifs = [Subst({g.target.id: nv}, {}).visit(copy.deepcopy(c)) for c in g.ifs]
+            except NotInlinable:
+                return n
+            bind = ast.copy_location(ast.Assign(targets=[ast.Name(id=n.target.id, ctx=ast.Store())], value=elt), n)
+            inner = [bind] + n.body
+            if ifs:
+                test = ifs[0] if len(ifs) == 1 else ast.BoolOp(op=ast.And(), values=list(ifs))
+                inner = [ast.copy_location(ast.If(test=test, body=inner, orelse=[]), n)]
+            n.target = ast.Name(id=nv, ctx=ast.Store())
+            n.iter = g.iter
+            n.body = inner
+            ast.fix_missing_locations(n)
+            self.nz._local_touched = True
         return n
 
     def _next_gen(self, e):
@@ -770,9 +950,34 @@ def literal_of(nz, body, fi, e, kinds):
 # ---------------------------------------------------------------------------------------------- unroll
 
 def unroll(nz, body, fi):
+    def names_only(e):
+        """the expression reads nothing but local names and constants (records built from locals, tuples of them)"""
+        for n in ast.walk(e):
+            if isinstance(n, (ast.Attribute, ast.Subscript, ast.Await, ast.Yield, ast.YieldFrom, ast.NamedExpr, ast.Lambda, ast.ListComp, ast.GeneratorExp, ast.DictComp, ast.SetComp)):
+                if not (isinstance(n, ast.Attribute) and nz.prog.const(fi.module, n) is not UNKNOWN):
+                    return False
+            if isinstance(n, ast.Call) and namedtuple_fields(nz, fi, n.func) is None:
+                return False
+        return True
+
     def f(stmts):
         out = []
-        for s in stmts:
+        for idx, s in enumerate(stmts):
+            # checks = (Rec(a, K1, "m1"), Rec(b, K2, "m2")); for c in checks: ...  -- the literal sits right in front of its only use and reads
+            # locals the loop body does not re-bind: the loop ranges over the literal itself
+            if isinstance(s, ast.For) and isinstance(s.iter, ast.Name) and out and isinstance(out[-1], ast.Assign) and len(out[-1].targets) == 1 \
+                    and isinstance(out[-1].targets[0], ast.Name) and out[-1].targets[0].id == s.iter.id and isinstance(out[-1].value, (ast.Tuple, ast.List)) \
+                    and single_assignment(body_ref[0], s.iter.id) is out[-1] and name_loads(body_ref[0], s.iter.id) == 1 and names_only(out[-1].value) \
+                    and not ({x.id for x in ast.walk(out[-1].value) if isinstance(x, ast.Name)} & stored_names(s.body)):
+                s2 = copy.copy(s)
+                s2.iter = out[-1].value
+                r = try_unroll(nz, body_ref[0], fi, s2)
+                if r is not None:
+                    out.pop()
+                    nz._local_touched = True
+                    nz.log.setdefault(fi.qname, []).append(f"unrolled loop over the local literal `{s.iter.id}` at line {getattr(s, 'lineno', '?')}")
+                    out.extend(r)
+                    continue
             r = try_unroll(nz, body_ref[0], fi, s) if isinstance(s, ast.For) else None
             if r is None:
                 out.append(s)
@@ -856,6 +1061,35 @@ def try_unroll(nz, body, fi, s: ast.For):
         return None
     out = []
     for e in elems:
+        # a record built on the spot whose fields are the only thing the body looks at: the fields are read off the constructor call
+        if isinstance(tgt, ast.Name) and isinstance(e, ast.Call) and not any(isinstance(a, ast.Starred) for a in e.args) and not any(k.arg is None for k in e.keywords):
+            flds = namedtuple_fields(nz, fi, e.func)
+            if flds is not None and len(e.args) + len(e.keywords) == len(flds) and all(is_pure(a) for a in list(e.args) + [k.value for k in e.keywords]):
+                amap = dict(zip(flds, e.args))
+                amap.update({k.arg: k.value for k in e.keywords})
+                uses_ok = set(amap) == set(flds) and tgt.id not in assigned
+
+                class Rd(ast.NodeTransformer):
+                    bad = False
+
+                    def visit_Attribute(self, n):
+                        if isinstance(n.value, ast.Name) and n.value.id == tgt.id:
+                            if isinstance(n.ctx, ast.Load) and n.attr in amap:
+                                return ast.copy_location(copy.deepcopy(amap[n.attr]), n)
+                            Rd.bad = True
+                            return n
+                        return self.generic_visit(n)
+
+                    def visit_Name(self, n):
+                        if n.id == tgt.id:
+                            Rd.bad = True
+                        return n
+                if uses_ok:
+                    Rd.bad = False
+                    b = [Rd().visit(copy.deepcopy(x)) for x in s.body]
+                    if not Rd.bad:
+                        out.extend(b)
+                        continue
         ps = pairs(tgt, e)
         if ps is None:
             return None
